@@ -29,8 +29,10 @@ hash_t MIntPoly::__hash__() const
             hash_combine<hash_t>(seed, mp_get_si(p.second));
         return seed;
     }
+    // equal generators may print differently (f(0.0) and f(-0.0)), so hash
+    // them through Basic::hash, not through their printed form
     for (auto var : get_vars())
-        hash_combine<std::string>(seed, var->__str__());
+        hash_combine<Basic>(seed, *var);
 
     for (auto &p : get_poly().dict_) {
         hash_t t = vec_hash<vec_uint>()(p.first);
@@ -84,8 +86,10 @@ hash_t MExprPoly::__hash__() const
             hash_combine<Basic>(seed, *(p.second.get_basic()));
         return seed;
     }
+    // equal generators may print differently (f(0.0) and f(-0.0)), so hash
+    // them through Basic::hash, not through their printed form
     for (auto var : get_vars())
-        hash_combine<std::string>(seed, var->__str__());
+        hash_combine<Basic>(seed, *var);
 
     for (auto &p : get_poly().dict_) {
         hash_t t = vec_hash<vec_int>()(p.first);
